@@ -363,6 +363,102 @@ def dispatch(case):
     check("a-solve-entry-point-is-invoked", any(e[0] in ("solve", "solve_irrefutably") for e in log))
 
 
+def _dispatch_history_native(case):
+    """same history on the real classes, whose entry points are replaced by recorders for the duration"""
+    db1, db2 = CTX.native_inputs["cfg_db_first"], CTX.native_inputs["cfg_db_second"]
+    arg1 = CTX.native_inputs.get("arg_first") if case.first_arg == "str" else None
+    classes = [_cls_of(n) for n in ALL_NAMES]
+    log, saved = [], []
+
+    def rec(kind, ret):
+        def f(self, *a, **k):
+            log.append((kind, type(self).__name__))
+            return ret
+        return f
+
+    for c in classes:
+        for nm, fn in (("__init__", rec("init", None)), ("add_constraint", rec("add_constraint", None)), ("solve", rec("solve", False)),
+                       ("solve_irrefutably", rec("solve_irrefutably", False))):
+            saved.append((c, nm, c.__dict__.get(nm, _MISSING_ATTR)))
+            setattr(c, nm, fn)
+    cfg = _fake_config(db1)
+    try:
+        with override_global(SOL, "config", cfg):
+            solver = construct(CLS(SOL, "Solver"))
+            o1 = call(REAL(SOL, "Solver." + case.first), solver, arg1)
+            requires(not o1.raised)
+            n1 = len(log)
+            cfg.default_backend = db2
+            o2 = call(REAL(SOL, "Solver." + case.second), solver, None)
+    finally:
+        for c, nm, old in reversed(saved):
+            if old is _MISSING_ATTR:
+                delattr(c, nm)
+            else:
+                setattr(c, nm, old)
+    known = db2 in ALL_NAMES
+    if o2.raised:
+        check("raises-only-ValueError", o2.exc == "ValueError")
+        check("raises-only-for-unknown-names", not known)
+        return
+    check("returns-only-for-known-names", known)
+    inits = [e for e in log[n1:] if e[0] == "init"]
+    check("second-call-creates-its-own-backend-object", len(inits) == 1)
+    if len(inits) == 1:
+        table = dict((v, k) for k, v in NAME_TABLE.items())
+        table["Z3Backend"] = "z3"
+        check("second-call-uses-the-backend-configured-at-that-time", db2 == table.get(inits[0][1], "?"))
+
+
+_MISSING_ATTR = object()
+
+
+def _hist_inputs(case):
+    for a in ALL_NAMES:
+        for b in ALL_NAMES + ["nosuch"]:
+            if a != b:
+                yield dict(cfg_db_first=a, cfg_db_second=b, arg_first="z3")
+
+
+@harness("C20", cases=[dict(first=f1, second=f2, first_arg=a) for f1 in ("find_answer", "solve") for f2 in ("find_answer", "solve")
+                       for a in ("none", "str")], native_inputs=_hist_inputs)
+def dispatch_history(case):
+    """the default is read at CALL time: after an earlier call on the same Solver (argument-less or with an
+    explicit back end) and a reassignment of config.default_backend, an argument-less call goes to the back
+    end that is configured NOW"""
+    if CTX.mode == "interp":
+        raise OutOfSubset("native-only instrumentation of the back-end classes")
+    if CTX.mode == "native":
+        return _dispatch_history_native(case)
+    db1, db2 = sstr("cfg_db_first"), sstr("cfg_db_second")
+    arg1 = sstr("arg_first") if case.first_arg == "str" else None
+    log = []
+    _backend_contracts(log)
+    cfg = _fake_config(db1)
+    with override_global(SOL, "config", cfg):
+        solver = construct(CLS(SOL, "Solver"))
+        o1 = call(REAL(SOL, "Solver." + case.first), solver, arg1)
+        if o1.raised:
+            requires(False)
+        n1 = len(log)
+        interp().setattr(cfg, "default_backend", db2)
+        o2 = call(REAL(SOL, "Solver." + case.second), solver, None)
+    known = one_of(db2, ALL_NAMES)
+    if o2.raised:
+        check("raises-only-ValueError", o2.exc == "ValueError")
+        check("raises-only-for-unknown-names", Not(known))
+        return
+    check("returns-only-for-known-names", known)
+    inits = [e for e in log[n1:] if e[0] == "init"]
+    check("second-call-creates-its-own-backend-object", len(inits) == 1)
+    if len(inits) != 1:
+        return
+    table = dict((v, k) for k, v in NAME_TABLE.items())
+    table["Z3Backend"] = "z3"
+    check("second-call-uses-the-backend-configured-at-that-time", db2 == table.get(inits[0][1], "?"))
+    check("every-later-call-goes-to-that-backend", all(e[1] == inits[0][1] for e in log[n1:]))
+
+
 # ---------------------------------------------------------------------------------------------
 # graph encoders: the native operator is constructed only when configured, the auxiliary (rank
 # variable) encoding only when not
